@@ -4,6 +4,7 @@ import Ark.Proofs.ArchIndex
 import Ark.Props.C03Drain
 import Ark.Props.C20Words
 import Ark.Proofs.GenBridge.BookArchetype
+import Ark.Props.C03Exact
 
 namespace Ark.Props.C03
 open Ark
@@ -81,5 +82,50 @@ theorem src_idx_freeAllTables : type_of% @Ark.GenBridge.Book.freeAllTables_eq :=
 theorem src_idx_freeAllTables_storage : type_of% @Ark.GenBridge.Book.freeAllTables_storage := @Ark.GenBridge.Book.freeAllTables_storage
 /-- what marking a list of tables free does to the table store -/
 theorem src_idx_markFree : type_of% @Ark.GenBridge.Book.markFree_fold := @Ark.GenBridge.Book.markFree_fold
+
+
+/-! ### End to end (Props/C03Exact): entity sets, over whole histories -/
+
+/-- **C03 end to end**: after every history of the refinement machine (eleven operations, any access path) a query on any uncached filter object visits exactly the specified (= alive) entities whose component set matches, each once, at the row the entity index records, and the cell it points to holds the last written value; Count = number of visits; EntityAt(i) = i-th visit; the world is unchanged up to the lock's bit pool -/
+theorem hist_query_exact : type_of% @Ark.Props.C03Exact.query_exact := @Ark.Props.C03Exact.query_exact
+
+/-- the same through a registered (cached) filter -/
+theorem hist_query_exact_cached : type_of% @Ark.Props.C03Exact.query_exact_cached := @Ark.Props.C03Exact.query_exact_cached
+
+/-- Count equals the number of matching specification entries -/
+theorem hist_count_spec : type_of% @Ark.Props.C03Exact.count_spec := @Ark.Props.C03Exact.count_spec
+
+/-- set-level reading of the match condition on the specification's key set -/
+theorem hist_matches_keys_iff : type_of% @Ark.Props.C03Exact.matches_keys_iff := @Ark.Props.C03Exact.matches_keys_iff
+
+/-- state level (any world satisfying the joint invariant): the walk over all archetypes -/
+theorem hist_drain_exact_untyped : type_of% @Ark.Props.C03Exact.drain_exact_untyped := @Ark.Props.C03Exact.drain_exact_untyped
+
+/-- state level: the walk over `componentIndex[rare]` of typed filters, under the component-index invariant -/
+theorem hist_drain_exact_typed : type_of% @Ark.Props.C03Exact.drain_exact_typed := @Ark.Props.C03Exact.drain_exact_typed
+
+/-- state level: any uncached filter object -/
+theorem hist_drain_exact : type_of% @Ark.Props.C03Exact.drain_exact := @Ark.Props.C03Exact.drain_exact
+
+/-- state level: through the cache entry, under the cache invariant -/
+theorem hist_drain_exact_cached : type_of% @Ark.Props.C03Exact.drain_exact_cached := @Ark.Props.C03Exact.drain_exact_cached
+
+/-- the component-index invariant holds after every history -/
+theorem hist_reach_cidx : type_of% @Ark.Props.C03Exact.reach_cidx := @Ark.Props.C03Exact.reach_cidx
+
+/-- the handle stored in every table row is the alive handle of its ID, after every history -/
+theorem hist_reach_rowsAlive : type_of% @Ark.Props.C03Exact.reach_rowsAlive := @Ark.Props.C03Exact.reach_rowsAlive
+
+/-- the joint extra invariant (component index, rows alive, lock, relation index, empty cache) holds after every history -/
+theorem hist_reach_xinv : type_of% @Ark.Props.C03Exact.reach_xinv := @Ark.Props.C03Exact.reach_xinv
+
+/-- finding: Lock/Unlock restores the lock mask but not the bit pool's free list -/
+theorem hist_lock_not_restored : type_of% @Ark.Props.C03Exact.lock_not_restored := @Ark.Props.C03Exact.lock_not_restored
+
+/-- finding: a typed filter object whose type list is not required by its mask misses entities (not constructible through the typed API) -/
+theorem hist_filterOK_necessary : type_of% @Ark.Props.C03Exact.filterOK_necessary := @Ark.Props.C03Exact.filterOK_necessary
+
+/-- finding: with all 64 lock bits outstanding the query panics -/
+theorem hist_lock_necessary : type_of% @Ark.Props.C03Exact.lock_necessary := @Ark.Props.C03Exact.lock_necessary
 
 end Ark.Props.C03
